@@ -110,6 +110,17 @@ class InjectedOSError(OSError):
     """Marker subclass so the harness can tell its own faults from real ones."""
 
 
+class InjectedValueError(ValueError):
+    """What writing to a closed file raises (not an OSError)."""
+
+
+class InjectedMemoryError(MemoryError):
+    """An allocation failing inside the target's write()."""
+
+
+WRITE_ERRORS = ["ENOSPC", "ENOSPC", "EIO", "EDQUOT", "ValueError", "MemoryError"]
+
+
 class BundledFileProxy:
     def __init__(self, real_open: Callable[[str], Any]):
         self.real_open = real_open
@@ -216,7 +227,10 @@ class _SinkMixin:
         self.sim_writes = 0
         self.sim_fail_at = fail_at
         self.sim_partial = partial
-        self.sim_err = ERRNOS[err]
+        # what a failing write raises: an OSError with this errno, or one of the other things a
+        # file-like target can raise (closed file, allocation failure)
+        self.sim_err_kind = err
+        self.sim_err = ERRNOS.get(err, _errno.EIO)
         self.sim_fired = 0
         self.sim_label = label
         self.sim_seeks = 0
@@ -238,6 +252,10 @@ class _SinkMixin:
             self.sim_fired += 1
             if self.sim_ctx is not None and self.sim_fired == 1:
                 self.sim_ctx.log("fault", self.sim_label, "write", k)
+            if self.sim_err_kind == "ValueError":
+                raise InjectedValueError("I/O operation on closed file.")
+            if self.sim_err_kind == "MemoryError":
+                raise InjectedMemoryError()
             raise InjectedOSError(self.sim_err, os.strerror(self.sim_err))
         pos = self.tell()
         n = do_write()
